@@ -406,6 +406,72 @@ def replay_range(chk, qa, rng, what, env=None, shape=(2, 3, 2)):
     chk.harness_error("C06 range check: '%s' did not reproduce" % what)
 
 
+def real_calculator_twin(chk):
+    """Configuration twin on shipped data: a calculation whose reachable pressure range starts above zero (volume_ratio 1.0) with a requested
+    grid inside it.  Every pressure-base tensor component, compliance and the volume are compared with an independent monotone
+    interpolation of the volume-base quantity at the volume where the QHA pressure equals the requested one (to interpolation accuracy)."""
+    import shutil
+    import tempfile
+    import yaml
+    import logging
+    import warnings
+    from scipy.interpolate import PchipInterpolator
+    from cij.core.calculator import Calculator
+    src = os.path.join(os.environ.get("CIJ_REPO", "/repo"), "examples", "diopside")
+    d = tempfile.mkdtemp(prefix="c06tw_")
+    bad = None
+    try:
+        for f in ("input01", "input02"):
+            shutil.copy(os.path.join(src, f), d)
+        cfg = yaml.safe_load(open(os.path.join(src, "settings.yaml")))
+        cfg["qha"]["settings"].update(NT=3, DT=400, DT_SAMPLE=400, volume_ratio=1.0, NTV=21, P_MIN=0, DELTA_P=0.5, DELTA_P_SAMPLE=0.5)
+        logging.disable(logging.CRITICAL)
+        with warnings.catch_warnings(), numpy.errstate(all="ignore"):
+            warnings.simplefilter("ignore")
+            with open(os.path.join(d, "settings.yaml"), "w") as fp:
+                yaml.safe_dump(cfg, fp)
+            probe = Calculator(os.path.join(d, "settings.yaml"))
+            from cij.util.units import _to_gpa
+            P = _to_gpa(numpy.asarray(probe.qha_calculator.volume_base.pressures))
+            lo, hi = float(P[:, 0].max()), float(P[:, -1].min())
+            if not (lo > 0.5 and hi - lo > 6):
+                chk.note("pressure-base twin: reachable range [%.2f, %.2f] GPa does not start above zero; twin skipped" % (lo, hi))
+                return
+            p_min = float(numpy.ceil(lo + 1.0))
+            n = int((hi - 1.0 - p_min) // 1.0) + 1
+            cfg["qha"]["settings"].update(P_MIN=p_min, DELTA_P=1.0, DELTA_P_SAMPLE=1.0, NTV=max(4, n))
+            with open(os.path.join(d, "settings.yaml"), "w") as fp:
+                yaml.safe_dump(cfg, fp)
+            calc = Calculator(os.path.join(d, "settings.yaml"))
+            Pv = numpy.asarray(calc.qha_calculator.volume_base.pressures)
+            pgrid = numpy.asarray(calc.pressure_base.p_array)
+            nt_ = len(calc.t_array) - 4
+            cases = [("V(T,P)", numpy.asarray(calc.volume_base.v_array)[None, :] * numpy.ones((len(calc.t_array), 1)), numpy.asarray(calc.pressure_base.volumes))]
+            for key in list(calc.modulus_keys)[:6]:
+                cases.append(("adiabatic c%d%d" % key.v, numpy.asarray(calc.volume_base.modulus_adiabatic[key]), numpy.asarray(calc.pressure_base.modulus_adiabatic[key])))
+                cases.append(("isothermal c%d%d" % key.v, numpy.asarray(calc.volume_base.modulus_isothermal[key]), numpy.asarray(calc.pressure_base.modulus_isothermal[key])))
+            for name, ftv, ftp in cases:
+                for it in range(nt_):
+                    order = numpy.argsort(Pv[it])
+                    want = PchipInterpolator(Pv[it][order], ftv[it][order])(pgrid)
+                    scale = numpy.abs(ftv[it]).max()
+                    dev = float(numpy.abs(ftp[it] - want).max() / scale)
+                    if not dev <= 5e-3:
+                        bad = bad or (name, float(calc.t_array[it]), dev, p_min, lo, hi)
+    except Exception as e:
+        chk.note("pressure-base twin: run failed (%s: %s)" % (type(e).__name__, str(e)[:100]))
+        return
+    finally:
+        logging.disable(logging.NOTSET)
+        shutil.rmtree(d, ignore_errors=True)
+    if bad:
+        chk.violation("pressure-base:real-calculator", "examples/diopside with volume_ratio 1.0 (reachable pressures %.1f .. %.1f GPa) and a requested grid from %.0f GPa inside "
+                      "that range: the pressure-base %s at T = %.0f K differs from the volume-base quantity interpolated to the requested pressures by %.2g of its scale"
+                      % (bad[4], bad[5], bad[3], bad[0], bad[1], bad[2]), dict(quantity=bad[0]))
+    else:
+        chk.side_check("pressure-base twin on shipped data (range starting above zero): V(T,P) and 12 tensor views equal the volume-base quantities at P to 5e-3", True)
+
+
 def main():
     tier = os.environ.get("VERIF_TIER", "quick")
     if len(sys.argv) > 1:
@@ -422,6 +488,7 @@ def main():
     wiring(chk, cc, qa, tier, rng)
     kernel(chk, tier, rng)
     range_check(chk, qa, tier, rng)
+    real_calculator_twin(chk)
     chk.bound(wiring="nT=2, nV=2, 2 requested pressures, %d quantities" % (len(QUANTS) + len(SPELLINGS)), kernel="one isotherm, 6 volumes, all brackets",
               range_check="nT<=3, nV<=3, <=3 requested pressures, 256 paths")
     chk.stub("cij.core.calculator.v2p -> uninterpreted function V2P(f, P_tv, p) (equal arguments <=> equal results)")
